@@ -10,9 +10,9 @@ NOTES = {
     'C11': ('PARTIAL. Proved: the lock discipline extracted from the sources of both clients on every run (every access to the shared fields under the mutex, no re-entrant locking) and, for the mutex semantics, that the accesses of every concurrent execution are ordered as a serial execution of whole critical sections',
             'not expressible in the model: the Go memory model and real schedules. Data-race freedom and linearizability of outcomes are OBSERVED (go test -race stress of every method mix; N concurrent ADD 1 = N; one winner among racing conditional puts), not proved. BatchWriteItem/BatchGetItem are sequences of atomic single-item operations, not atomic as a whole'),
     'C02': ('an unlimited read of the base table is exactly the selection of the matching items in key order (reverse for backward), for every interpreter, in every TInv state',
-            'proved for the base table; reads through secondary indexes rest on IInv (C03) plus the correspondence check; N/B sort keys are ordered as text (known finding C12-2)'),
-    'C04': ('base table: following LastEvaluatedKey with any Limit >= 1 ends within |keys|+1 pages and concatenates to exactly the unpaginated result; resuming after any start key (stored or deleted meanwhile) returns exactly the matching items ordered after it; resume position decided by order; page size <= Limit; for every interpreter and every key-consistent table state',
-            'PARTIAL for secondary indexes only: there the completeness statement is checked by the correspondence on the page stream (every boundary, equal index keys, deletes between pages); premises of the base-table theorem: TInv and KInv (proved for reachable states; KInv for histories whose updates keep the key attributes, cf. known finding C13-2), expressions evaluate without error'),
+            'also proved through secondary indexes: under IInv the read evaluates exactly the indexed items in (index key, primary key) order; N/B sort keys are ordered as text (known finding C12-2)'),
+    'C04': ('base table AND secondary indexes, every interpreter, key condition/filter, both directions, Limit >= 1: following LastEvaluatedKey ends within |entries|+1 pages and the pages concatenate to exactly the unpaginated result (every entry once, in order, also inside runs of equal index keys); on the base table resuming after any start key (stored or deleted meanwhile) returns exactly the matching items ordered after it; resume position decided by order; page size <= Limit',
+            'premises: TInv, IInv (proved for every reachable state), KInv (proved for reachable states of histories whose updates keep the key attributes, cf. known finding C13-2), the request\'s expressions evaluate without error; non-vacuity witnesses in coq/theories/Witness/W04.v; resume-after-deleted-boundary on indexes is covered by the page stream (the theorem there follows the LastEvaluatedKey chain of an unchanged table)'),
     'C06': ('precedence chain from the generated tables; missing-attribute, type-sensitivity, ordering, NULL-exists and connective laws for all values',
             'a DynamoDB reference semantics is not available offline: the laws are those the property text states; BETWEEN/IN on paths and size() on sets are known findings'),
     'C07': ('frame theorem: attributes no action targets keep their value (through the evaluator representation) for every update expression, item and bindings; removed means gone; SET stores a copy',
